@@ -10,7 +10,7 @@ SPEC = {
          "thorough": {"checks": 5000, "shards": 16, "timeout": 1500}},
         {"name": "histories", "pkg": SS, "kind": "rapid", "run": "^TestVerifC15Histories$",
          "quick": {"checks": 100, "shards": 3, "timeout": 300},
-         "thorough": {"checks": 400, "shards": 16, "timeout": 1500}},
+         "thorough": {"checks": 300, "shards": 16, "timeout": 1500}},
         {"name": "freerun", "pkg": SS, "kind": "rapid", "run": "^TestVerifC15FreeRun$",
          "quick": {"checks": 300, "shards": 1, "timeout": 300},
          "thorough": {"checks": 2500, "shards": 4, "timeout": 1500, "race": True}},
